@@ -55,6 +55,9 @@ def programs():
         {"k": "map", "items": [1, 2, 3], "cfg": ac, "body": [{"k": "step", "fn": {"bytes": 100_000}}]}]}]})
     out.append({"name": "par[child-oversized|S]", "seq": [{"k": "par", "cfg": ac, "branches": [
         [{"k": "child", "body": S("in"), "big": 270_000}], S("side")]}]})
+    # maps whose inputs contain equal elements (positions are positions, not values)
+    out.append({"name": "map3[equal-items 3,5,3]", "seq": [{"k": "map", "items": [3, 5, 3], "cfg": ac, "body": S("m1") + S("m2")}]})
+    out.append({"name": "map4[equal-items 1,True,1.0,1]", "seq": [{"k": "map", "items": [1, True, 1.0, 1], "cfg": ac, "body": S("m")}]})
     out.append({"name": "par[R|W.S]", "seq": [{"k": "par", "cfg": ac, "branches": [P.U("R"), [{"k": "wait", "s": 1}] + S("z")]}]})
     out.append({"name": "first[fast|slow.S]+S", "seq": [{"k": "par", "cfg": {"cc": "first"}, "branches": [S("w"), SLOW(2, "l") + S("l2")]}] + S("after")})
     return out
@@ -127,8 +130,59 @@ def idmap_of(d):
             for p, i in path_id.items() if not str(p[0]).startswith("shared")}, viol
 
 
+def _fanouts(seq, base):
+    """(path, number of branches/items) of every map/parallel in a program (same numbering as the interpreter)."""
+    out = []
+    counter = [0]
+
+    def walk_op(op, base):
+        k = op["k"]
+        if k in ("log", "sleep", "raise"):
+            return
+        if k == "try":
+            walk_op(op["body"], base)
+            return
+        counter[0] += 1
+        path = base + (counter[0],)
+        if k == "cb":
+            for sub in op.get("between", []):
+                walk_op(sub, base)
+        elif k == "child":
+            out.extend(_fanouts(op["body"], path))
+        elif k == "par":
+            out.append((path, len(op["branches"]), op.get("cfg") or {}))
+            for i, b in enumerate(op["branches"]):
+                out.extend(_fanouts(b, path + (f"b{i}",)))
+        elif k == "map":
+            out.append((path, len(op["items"]), op.get("cfg") or {}))
+            for i in range(len(op["items"])):
+                out.extend(_fanouts(op["body"], path + (f"b{i}",)))
+    for op in seq:
+        walk_op(op, base)
+    return out
+
+
 def judge(d, _=None):
     m, viol = idmap_of(d)
+    # every input of a map / branch of a parallel that runs to completion has its own position (and so its own id)
+    if d.final and d.final.get("status") == "SUCCEEDED" and not d.program.get("shared"):
+        seen = {r["path"] for r in d.backend.log if r.get("path") and not r.get("external")}
+        ids = {}
+        for r in d.backend.log:
+            if r.get("path") and not r.get("external"):
+                ids.setdefault(r["path"], set()).add(r["u"]["Id"])
+        for path, n, cfg in _fanouts(d.program["seq"], ()):
+            if cfg.get("cc") != "all_completed":
+                continue
+            enclosing_ran = len(path) == 1 or path[:-1] in seen
+            if not enclosing_ran or path not in seen:
+                continue
+            have = sorted({p[len(path)] for p in seen if len(p) > len(path) and p[:len(path)] == path and str(p[len(path)]).startswith("b")})
+            want = [f"b{i}" for i in range(n)]
+            if sorted(have) != sorted(want):
+                viol.append({"sig": "C08/inputs-without-a-position-of-their-own",
+                             "msg": f"{d.program['name']}: {fmt_path(path)} has {n} inputs but operations were recorded for "
+                                    f"positions {have} only (two inputs share a position and therefore an id)"})
     d.c08_map = m
     return viol
 
@@ -205,7 +259,7 @@ def run(ctx):
                               "replay": {"cross_unit": True}})
             rev.setdefault(i, p)
     cov["distinct_positions"] = len(glob)
-    cov["bounds"] = ("22 program shapes (three with nested oversized contexts; three placing every operation kind inside a child context, a parallel branch and a map item) + 2 in which sibling branches issue operations on the enclosing context (shared call counter, line-level preemption in threading.py) (nesting <=3, <=3 branches/items, sibling maps, child-in-branch-in-map, callbacks inside "
+    cov["bounds"] = ("24 program shapes (two maps over inputs with equal elements; three with nested oversized contexts; three placing every operation kind inside a child context, a parallel branch and a map item) + 2 in which sibling branches issue operations on the enclosing context (shared call counter, line-level preemption in threading.py) (nesting <=3, <=3 branches/items, sibling maps, child-in-branch-in-map, callbacks inside "
                      "branches, max_concurrency, early completion); per shape every single crash point, every schedule with "
                      "<=1 (quick) / <=2 (thorough, on the 16 short shapes) deviations, policies rtb/low/high/rr; the relation position->id is "
                      "checked within each execution, across all executions of a unit and across all programs")
